@@ -137,6 +137,8 @@ def ref_client(seat, team, scenario, net, log, fault=None, state=None, sock=None
         if not PR.is_end_of_session(line):
             raise ClientFailure(f'expected End of session, got {line!r}')
         state['ended'] = True
+        if seat in (scenario.get('linger') or ()) and state.get('linger_wait') is not None:
+            state['linger_wait']()          # a conforming client need not hang up at once: it keeps the connection open
     finally:
         sock.close()
 
@@ -216,7 +218,9 @@ def run_session(scenario, schedule, clients=None, fault=None, kernel_hook=None, 
                 res.server_exc = e
                 res.server_tb = traceback.format_exc()
 
-        kernel.spawn(server_main, 'main', required=True)
+        main_task = kernel.spawn(server_main, 'main', required=True)
+        for s_ in range(4):
+            res.client_state[s_]['linger_wait'] = lambda: kernel.point('linger', None, pred=lambda: main_task.state == 'done', timeout_ok=True)
         teams = scenario['teams']
         for seat in scenario.get('arrival', [0, 1, 2, 3]):
             team = teams[seat % 2]
